@@ -212,4 +212,77 @@ def writeArraysFull (h : Heap) (m : Addr) (nodeMd edgeMd : List PropMd)
   let data' : String → AxisData := fun nm => if ph.contains nm then .empty else data nm
   writeArraysMeta h m nodeMd' edgeMd haveNodeProps data'
 
+/-! ## The metadata route of the backend writers (`geff.write`) -/
+
+/-- name, min, max of an `Axis` that is constructed anew -/
+abbrev AxisSpec := String × Option String × Option String
+
+/-- new `Axis` objects -/
+def allocAxes (h : Heap) : List AxisSpec → Heap × List Addr
+  | [] => (h, [])
+  | (nm, mn, mx) :: t =>
+    let (h1, a) := alloc h (.axis nm mn mx)
+    let (h2, r) := allocAxes h1 t
+    (h2, a :: r)
+
+/-- `metadata.axes = axes` on the object `m`, `axes` being freshly constructed `Axis` objects in a
+new list -/
+def setAxes (h : Heap) (m : Addr) (axes : List AxisSpec) : Heap :=
+  match h[m]? with
+  | some (.geffMeta _ np ep dir) =>
+    let (h1, items) := allocAxes h axes
+    let (h2, l) := alloc h1 (.axesList items)
+    h2.set m (.geffMeta (some l) np ep dir)
+  | _ => h
+
+/-- `metadata.geff_version = GEFF_VERSION; metadata.directed = is_directed` on the object `m`
+(the version string is not part of the cell: both are plain in-place assignments) -/
+def setDirected (h : Heap) (m : Addr) (d : Bool) : Heap :=
+  match h[m]? with
+  | some (.geffMeta ax np ep _) => h.set m (.geffMeta ax np ep d)
+  | _ => h
+
+/-- `create_or_update_metadata(metadata, is_directed, axes)`: a caller's object is **deep-copied
+first**, every assignment goes to the copy; without one a new object is built -/
+def createOrUpdateMetadata (h : Heap) (m : Option Addr) (isDirected : Bool)
+    (axes : Option (List AxisSpec)) : Heap × Addr :=
+  match m with
+  | none =>
+    let (h1, np) := alloc h (.propsDict [])
+    let (h2, ep) := alloc h1 (.propsDict [])
+    let (h3, m') := alloc h2 (.geffMeta none np ep isDirected)
+    match axes with
+    | none => (h3, m')
+    | some ax => (setAxes h3 m' ax, m')
+  | some m =>
+    match h[m]? with
+    | some (.geffMeta _ _ _ _) =>
+      let (h1, m1) := deepcopyMeta h m                 -- metadata = copy.deepcopy(metadata)
+      let h2 := setDirected h1 m1 isDirected           -- metadata.geff_version = …; metadata.directed = …
+      match axes with
+      | none => (h2, m1)
+      | some ax => (setAxes h2 m1 ax, m1)              -- metadata.axes = axes
+    | _ => (h, m)
+
+/-- `update_metadata_axes(metadata, axis_names, …)`: shallow `model_copy()`, then
+`new_meta.axes = axes_from_lists(…)` on the copy -/
+def updateMetadataAxes (h : Heap) (m : Addr) (axes : List AxisSpec) : Heap × Addr :=
+  match h[m]? with
+  | some (.geffMeta a np ep d) =>
+    let (h1, m') := alloc h (.geffMeta a np ep d)
+    (setAxes h1 m' axes, m')
+  | _ => (h, m)
+
+/-- the metadata route of `NxBackend.write` / `RxBackend.write` / `SgBackend.write`:
+`create_or_update_metadata` (spatial-graph passes its axes here), optionally
+`update_metadata_axes` (the `axis_names=` override), then `write_dicts` → `write_arrays` -/
+def backendWriteMeta (h : Heap) (m : Option Addr) (isDirected : Bool)
+    (createAxes override : Option (List AxisSpec)) (nodeMd edgeMd : List PropMd)
+    (haveNodeProps emptyGraph : Bool) (data : String → AxisData) : Heap × Option Addr :=
+  let (h1, m1) := createOrUpdateMetadata h m isDirected createAxes
+  let (h2, m2) := match override with
+    | none => (h1, m1)
+    | some ax => updateMetadataAxes h1 m1 ax
+  writeArraysFull h2 m2 nodeMd edgeMd haveNodeProps emptyGraph data
+
 end Geff.MetaHeap
